@@ -12,11 +12,13 @@ fn main() {
             "C03" => if body["kind"] == "c03" { c03::replay(body) } else { c01::replay(body) },
             "C06" | "C09" => c06::replay(body),
             "C17" => c17::replay(body),
+            "C16" => c16::replay(body),
             _ => { eprintln!("no replay for {prop}"); false }
         };
         println!("reproduced={reproduced}");
         std::process::exit(if reproduced { 1 } else { 0 });
     }
+    if args.len() >= 2 && args[1] == "time16" { c16::timing(); return; }
     if args.len() >= 2 && args[1] == "dbg17" { c17::debug(6, 3, 0, 0, 0, "sp3"); return; }
     if args.len() < 5 {
         eprintln!("usage: nv <prop> <tier> <seed> <outdir> | nv replay <file>");
@@ -30,6 +32,7 @@ fn main() {
         "C06" => c06::main(tier, seed, outdir),
         "C03" => c03::main(tier, seed, outdir),
         "C17" => c17::main(tier, seed, outdir),
+        "C16" => c16::main(tier, seed, outdir),
         _ => { eprintln!("unknown property {prop}"); std::process::exit(2); }
     }
 }
